@@ -344,6 +344,14 @@ pub fn execute_with(
     if s.arch_variant {
         env.push(("CNB_TARGET_ARCH_VARIANT".into(), "v8".into()));
     }
+    // what a current lifecycle exports besides passing the positional arguments
+    env.push(("CNB_PLATFORM_DIR".into(), d.platform.display().to_string()));
+    if s.build_phase {
+        env.push(("CNB_LAYERS_DIR".into(), d.layers.display().to_string()));
+        env.push(("CNB_BP_PLAN_PATH".into(), d.plan_in.display().to_string()));
+    } else {
+        env.push(("CNB_BUILD_PLAN_PATH".into(), d.plan_out.display().to_string()));
+    }
     let proper: Vec<OsString> = if s.build_phase {
         vec![d.layers.clone().into(), d.platform.clone().into(), d.plan_in.clone().into()]
     } else {
